@@ -912,7 +912,18 @@ func (cfg *Config) forceRenew(ctx context.Context, logger *zap.Logger, cert Cert
 		return cert, fmt.Errorf("unable to forcefully get new certificate for %v: %w", cert.Names, err)
 	}
 
-	return cfg.reloadManagedCertificate(ctx, cert)
+	newCert, err := cfg.reloadManagedCertificate(ctx, cert)
+	if err != nil && cert.ocsp != nil && cert.ocsp.Status == ocsp.Revoked {
+		// the replacement exists in storage but could not be loaded into the
+		// cache; as above, do not keep serving the revoked certificate
+		logger.Error("unable to load replacement for certificate with OCSP status of REVOKED; removing from cache",
+			zap.Strings("identifiers", cert.Names),
+			zap.Error(err))
+		cfg.certCache.mu.Lock()
+		cfg.certCache.removeCertificate(cert)
+		cfg.certCache.mu.Unlock()
+	}
+	return newCert, err
 }
 
 // moveCompromisedPrivateKey moves the private key for cert to a ".compromised" file
